@@ -291,6 +291,9 @@ _JOIN_SHAPES = [
     dict(vars=dict(x=2, y=2, z=2), u1=["x", "y"], u2=["y", "z"]),
     dict(vars=dict(x=2, y=2), u1=["x", "y"], u2=["y", "x"]),
     dict(vars=dict(x=2), u1=[], u2=["x"], opkinds=["matrix"]),
+    # operands of three variables whose order is a rotation of the joined scope's (an axis permutation that is not its own inverse)
+    dict(vars=dict(a=2, b=2, c=2), u1=["c"], u2=["a", "b", "c"], opkinds=["matrix"]),
+    dict(vars=dict(a=2, b=3, c=2), u1=["b", "c", "a"], u2=["a", "b", "c"], opkinds=["matrix"], sample_only=True, sample_factor=2),
 ]
 _JOIN_SHAPES_T = [
     dict(vars=dict(x=2, y=2, z=2, w=2), u1=["x", "y", "z"], u2=["w", "y"]),
@@ -499,6 +502,26 @@ def h_solution_cost(env):
     if ok:
         env.prove("solution_cost.first-is-count-of-infinity-terms", eq(r[0], hard), detail=lambda: (r, terms, infinity))
         env.prove("solution_cost.second-is-sum-of-other-terms", eq(r[1], soft), detail=lambda: (r, terms, infinity))
+    if ok and via == "DCOP":
+        # second use of the same DCOP object after it has been extended through its public dicts (the only way to declare an
+        # external variable; what the yaml loader does): the evaluation follows the DCOP as it is now, not as it was
+        e2 = ExternalVariable("e2", fx.domain("d", range(2)), value=1)
+        dcop.external_variables["e2"] = e2
+        w, wcost = fx.make_variable(env, "w", fx.domain("d", range(2)), vkind)
+        dcop.variables["w"] = w
+        wval = env.choice("val_w", [0, 1])
+        given2 = dict(given)
+        given2["w"] = wval
+        r2 = env.call(dcop.solution_cost, given2, infinity)
+        if isinstance(r2, Raised):
+            env.prove("solution_cost.second-evaluation-after-extending-the-dcop.no-raise", False, detail=lambda: r2.tb)
+            return
+        terms2 = terms + [wcost(wval), 0]
+        hard2 = ssum([ite(eq(t, infinity), 1, 0) for t in terms2])
+        soft2 = ssum([ite(eq(t, infinity), 0, t) for t in terms2])
+        ok2 = isinstance(r2, tuple) and len(r2) == 2
+        env.prove("solution_cost.second-evaluation-after-extending-the-dcop.counts-the-new-variable",
+                  ok2 and And(eq(r2[0], hard2), eq(r2[1], soft2)), detail=lambda: (r2, terms2, infinity))
 
 
 Contract(
